@@ -35,6 +35,13 @@ structure Out where
 def World.step (w : World) (t : List String) (implObs : String) : World × Out :=
   -- `tick n`: n ledgers close, fewer than any persistent or instance entry lives (the harness keeps the total per
   -- scenario below that): no modelled state depends on it. The token worlds move the ledger themselves (`time`).
+  -- `probe_extra …`: the harness calls, without any authorisation, every exported function of the contract under test that
+  -- the model does not know (none on the unchanged tree, apart from `todo!()` stubs): no modelled state may change
+  if t.head? = some "probe_extra" then
+    match w with
+    | .none => (w, ⟨"parse-error:no-scenario", "parse-error", Option.none⟩)
+    | _ => (w, ⟨"ok", "ok", Option.none⟩)
+  else
   if t.head? = some "tick" then
     match w with
     | .tk _ => (w, ⟨"parse-error:tick", "parse-error", Option.none⟩)
